@@ -300,6 +300,7 @@ class Unit:
         emit_text('#![allow(unused_imports, unused_variables, dead_code, unused_mut, unused_macros, non_camel_case_types, unreachable_code, unused_parens, unused_braces, unreachable_patterns)]')
         emit_text('use vstd::prelude::*;')
         emit_text('verus! {')
+        emit_text(open(os.path.join(VERIF, 'contracts', 'std_specs.rs')).read())
         for e in self.entries:
             if isinstance(e, Raw):
                 emit_text(e.text, None)
@@ -510,7 +511,7 @@ class Unit:
                 raise Undecided('D20 in %s: %s' % (e.qualname, ex))
             for ln_ in slog:
                 self.desugar_log.append(('D20', '%s: %s' % (e.qualname, ln_)))
-        if e.closures:
+        if e.closures or getattr(self, 'default_closures', False):
             from .closures import desugar_closures, NoRule
             try:
                 text, clog = desugar_closures(text)
